@@ -10,7 +10,6 @@ import sys
 
 def main():
     job = json.load(sys.stdin)
-    sys.setrecursionlimit(10000)
     from vlib import am as am_mod
     from vlib import front, walk
     keep = []
@@ -27,6 +26,8 @@ def main():
         junk[i] = None
     src, argv = job["target"]
     out = front.compile_src(src, argv, clear=False)
+    # (the interpreter's own limits are part of the state a compilation must not leak into the next one: they are left alone until here)
+    sys.setrecursionlimit(max(10000, sys.getrecursionlimit()))
     res = {"kind": out.kind, "stage": out.stage, "exc": type(out.exc).__name__ if out.exc is not None else None}
     if out.accepted:
         comp = out.compiled
